@@ -26,7 +26,8 @@ CLAIM = ('For every BMP code point, the frozen regular expressions classify it a
          'legal in names; the pubid class is production [13]; every flag the constructor stores has an effect; '
          "comment coercion ends with no '--' and no trailing '-'. Every exit of toXmlName has applied the "
          'first-character class to the first character and the name class to the rest.'
-         " The escape reader's character class is exactly the writer's alphabet (ASCII hexadecimal digits).")
+         " The escape reader's character class is exactly the writer's alphabet (ASCII hexadecimal digits)."
+         ' The replacement cache is a key-determined memo read and written one key at a time, never used wholesale.')
 NOT_DECIDED = ("acceptance by expat, non-BMP characters, injectivity for names that already contain an escape pattern "
                "(excluded by the statement).")
 MODULES = ["_ihatexml.py"]
